@@ -410,7 +410,7 @@ func modelSummary(m *Model) string {
 	}
 	var ms []string
 	for n, v := range m.Scalars {
-		if !strings.Contains(n, "!") {
+		if !strings.Contains(n, "!") || strings.HasPrefix(n, "choose:") {
 			ms = append(ms, fmt.Sprintf("%s=%d", n, v))
 		}
 	}
